@@ -156,6 +156,8 @@ EXPECTED_METHODS = {"__contains__", "__delitem__", "__getitem__", "__setitem__",
 
 def _call(g, m, p, other):
     fn = getattr(g, m)
+    if m == "copy" and SEL.get("pos", 0) == 2:  # destination given as a group object + name= keyword
+        return fn(other, g["h"], name=p)
     if m in TWO_PATH:
         return fn(p, other) if SEL.get("pos", 0) == 0 else fn(other, p)
     if m == "__setitem__":
@@ -185,7 +187,7 @@ def guard(pre: str, rest: str, nested: bool, absolute: bool, tail: bool, ro: boo
         # (with the reserved path first, nothing at all may reach it)
         if any(c in MUTATING for c in raw.calls):
             return False
-        return raw.calls == [] or (m in TWO_PATH and SEL.get("pos", 0) == 1)
+        return raw.calls == [] or (m in TWO_PATH and SEL.get("pos", 0) >= 1)
     note(("reserved path accepted", m, p))
     return False
 
